@@ -47,7 +47,9 @@ fn run_case(family: &str, input: &[Int]) -> Vec<Int> {
 fn main() {
     let path = std::env::args().nth(1).expect("usage: cvharness <infile>");
     let skip: usize = std::env::args().nth(2).map(|s| s.parse().unwrap()).unwrap_or(0);
-    std::panic::set_hook(Box::new(|_| {})); // silence panic messages; they are reported as PANIC
+    if std::env::var_os("CVHARNESS_SHOW_PANICS").is_none() {
+        std::panic::set_hook(Box::new(|_| {})); // silence panic messages; they are reported as PANIC
+    }
     let f = std::io::BufReader::new(std::fs::File::open(path).unwrap());
     let stdout = std::io::stdout();
     for (lineno, line) in f.lines().enumerate() {
